@@ -584,3 +584,12 @@ enum OpenFileSyncAction {
     RestoreFromDisk(Uri, PathBuf),
     Remove(Uri),
 }
+
+#[cfg(feature = "verif-hooks")]
+impl WorkspaceManager {
+    /// Verification only: see `ClientProxy::verif_touch_locks`.
+    pub fn verif_touch_locks(&self, label: &mut dyn FnMut(&str)) {
+        label("reload_lock");
+        drop(self.reload_lock.try_lock());
+    }
+}
